@@ -86,14 +86,18 @@ deriving DecidableEq, Repr
 inductive Variant | orig | fixed
 deriving DecidableEq, Repr
 
-def GRPC_STATUS : Bytes := Ascii.ofString "grpc-status"
-def GRPC_MESSAGE : Bytes := Ascii.ofString "grpc-message"
-def GRPC_STATUS_DETAILS : Bytes := Ascii.ofString "grpc-status-details-bin"
+def GRPC_STATUS : Bytes := HMap.name "grpc-status"
+def GRPC_MESSAGE : Bytes := HMap.name "grpc-message"
+def GRPC_STATUS_DETAILS : Bytes := HMap.name "grpc-status-details-bin"
+
+def TE : Bytes := HMap.name "te"
+def USER_AGENT : Bytes := HMap.name "user-agent"
+def CONTENT_TYPE : Bytes := HMap.name "content-type"
+def GRPC_MESSAGE_TYPE : Bytes := HMap.name "grpc-message-type"
 
 /-- `MetadataMap::GRPC_RESERVED_HEADERS` -/
 def reservedHeaders : List Bytes :=
-  [Ascii.ofString "te", Ascii.ofString "user-agent", Ascii.ofString "content-type",
-   Ascii.ofString "grpc-message", Ascii.ofString "grpc-message-type", Ascii.ofString "grpc-status"]
+  [TE, USER_AGENT, CONTENT_TYPE, GRPC_MESSAGE, GRPC_MESSAGE_TYPE, GRPC_STATUS]
 
 /-- `MetadataMap::into_sanitized_headers` -/
 def sanitize (m : HMap) : HMap := HMap.removeAll reservedHeaders m
@@ -103,22 +107,26 @@ def invalidHeaderStatus : St :=
   { code := .internal, message := Ascii.ofString "Couldn't serialize non-text grpc status header",
     details := [], metadata := [] }
 
-/-- `Status::add_header`: `Except.error` is the `Err(Status)` of a value that is not a legal
-header value (`HeaderValue::from_maybe_shared` failing). -/
-def addHeader (st : St) (h : HMap) : Except St HMap := do
-  let h := HMap.extend h (sanitize st.metadata)
-  let h := HMap.insert GRPC_STATUS st.code.headerValue h
-  let h ←
-    if st.message ≠ [] then
-      let w := Pct.encode st.message
-      if HMap.legalValue w then pure (HMap.insert GRPC_MESSAGE w h) else throw invalidHeaderStatus
-    else pure h
-  let h ←
-    if st.details ≠ [] then
-      let w := B64.encode false st.details
-      if HMap.legalValue w then pure (HMap.insert GRPC_STATUS_DETAILS w h) else throw invalidHeaderStatus
-    else pure h
-  pure h
+/-- the `grpc-message` step of `add_header`; `Except.error` is the `Err(Status)` of a value that
+is not a legal header value (`HeaderValue::from_maybe_shared` failing) -/
+def withMessage (st : St) (h : HMap) : Except St HMap :=
+  if st.message = [] then .ok h
+  else
+    let w := Pct.encode st.message
+    if HMap.legalValue w then .ok (HMap.insert GRPC_MESSAGE w h) else .error invalidHeaderStatus
+
+/-- the `grpc-status-details-bin` step of `add_header` -/
+def withDetails (st : St) (h : HMap) : Except St HMap :=
+  if st.details = [] then .ok h
+  else
+    let w := B64.encode false st.details
+    if HMap.legalValue w then .ok (HMap.insert GRPC_STATUS_DETAILS w h) else .error invalidHeaderStatus
+
+/-- `Status::add_header` -/
+def addHeader (st : St) (h : HMap) : Except St HMap :=
+  match withMessage st (HMap.insert GRPC_STATUS st.code.headerValue (HMap.extend h (sanitize st.metadata))) with
+  | .error e => .error e
+  | .ok h => withDetails st h
 
 /-- `Status::to_header_map` -/
 def toHeaderMap (st : St) : Except St HMap := addHeader st []
